@@ -51,6 +51,10 @@ from props.moncommon import (Mon, DEVS, WIDTHS, install_timer, core_of, tohex, u
 ID = 'C20'
 LEAN_MODULES = ['Py65.Props.C20', 'Py65.Proofs.MonPreGenEq', 'Py65.Proofs.MonCmdGenEq', 'Py65.Props.C20g']
 NAMESPACES = ['Py65.Props.C20', 'Py65.Proofs.MonPreGenEq', 'Py65.Proofs.MonCmdGenEq', 'Py65.Props.C20g']
+# library helpers (CPython behaviour modelled in lean/Py65/Model/*Rt*.lean ...) that the generated code of these
+# modules calls, derived by scanning the Lean sources (harness/rtscan.py); validated against CPython on every run
+import rtcheck  # noqa: E402
+RT_HELPERS = rtcheck.helpers_for(LEAN_MODULES)
 LEVEL = 'proof'
 USES_PROLOGUE = True
 USES_GEN = False
